@@ -52,15 +52,27 @@ def one(mid):
 def main():
     ids = sys.argv[1:] or sorted(x for x in os.listdir(os.path.join(VERIF, 'seeded')) if os.path.isdir(os.path.join(VERIF, 'seeded', x)))
     par = int(os.environ.get('MUT_PAR', '3'))
-    with ThreadPoolExecutor(par) as ex:
-        results = list(ex.map(one, ids))
     p = os.path.join(VERIF, 'selftest', 'results.json')
-    old = {}
-    if os.path.exists(p):
-        old = {r['id']: r for r in json.load(open(p))}
-    for r in results:
+    results = []
+
+    def save(r):
+        # written after every finished entry: a run that is stopped early keeps what it has done
+        old = {}
+        if os.path.exists(p):
+            old = {x['id']: x for x in json.load(open(p))}
         old[r['id']] = r
-    json.dump([old[k] for k in sorted(old)], open(p, 'w'), indent=1)
+        tmp = p + '.tmp'
+        json.dump([old[k] for k in sorted(old)], open(tmp, 'w'), indent=1)
+        os.replace(tmp, p)
+
+    from concurrent.futures import as_completed
+    with ThreadPoolExecutor(par) as ex:
+        futs = [ex.submit(one, i) for i in ids]
+        for f in as_completed(futs):
+            r = f.result()
+            results.append(r)
+            save(r)
+    results.sort(key=lambda r: ids.index(r['id']))
     for r in results:
         det = [pid for pid, c in r['checks'].items() if c['rc'] == 1]
         print('%-28s suite=%s detected_by=%s %s' % (r['id'], r.get('suite_passes'), det, r.get('error', '')))
